@@ -25,9 +25,10 @@ PD, PF, PC = R.P_DONE, R.P_FAILED, R.P_CANCELED
 
 DEVS = ['DevFinalRaise', 'DevPilotCbAll', 'DevPilotCbCanceled', 'DevPBatchFirst', 'DevPFinalRaise',
         'DevRemovedUnwatched', 'DevApplyNoRecheck', 'DevApplyOverCanceled', 'DevLoopAborts',
-        'DevAddLastWatched', 'DevAnnounceUnapplied']
+        'DevAddLastWatched', 'DevAnnounceUnapplied', 'DevWaitExtendsFinal', 'DevInfoMerge',
+        'DevSubmitOtherLock']
 
-INV_C06 = ['Monotone', 'AtMostOnce', 'GapsFilled', 'BatchIsolation', 'CbAgrees']
+INV_C06 = ['Monotone', 'AtMostOnce', 'GapsFilled', 'BatchIsolation', 'CbAgrees', 'TablesUntouched']
 INV_C13 = ['OwnFail', 'OthersKeep']
 INV_C14 = ['PMonotone', 'PGapsFilled', 'PFinalNotLeft', 'UnknownIgnored']
 INVARIANTS = ['TypeOK'] + INV_C06 + INV_C13 + INV_C14 + ['PBatchComplete']
@@ -38,10 +39,10 @@ WORKERS = 8
 
 def _scen(NT=NT, NP=NP, tasks=('t1', 't2'), unk=(), pilots=(), punk=(), ptypes=('pilot',),
           mb=1, mpb=0, bindat=R.BIND_AT, early=False, direct=False, remove=False,
-          race=False, lateadd=False):
+          race=False, lateadd=False, services=(), api=False, latesubmit=False):
     return dict(NT=NT, NP=NP, tasks=tasks, unk=unk, pilots=pilots, punk=punk, ptypes=ptypes,
                 mb=mb, mpb=mpb, bindat=bindat, early=early, direct=direct, remove=remove,
-                race=race, lateadd=lateadd)
+                race=race, lateadd=lateadd, services=services, api=api, latesubmit=latesubmit)
 
 
 # small-scope instances of the design model, exhaustive
@@ -49,6 +50,11 @@ SCENARIOS = {
     # C06: two tasks + an unknown uid, every batch of <= 2 entries
     'tasks-q' : _scen(NT=6,  tasks=('t1', 't2'), unk=('tx',), mb=2),
     'tasks-t' : _scen(NT=15, tasks=('t1', 't2'), unk=('tx',), mb=2),
+    # C06: application calls and service info between the batches; t2 is a service
+    'api-q'   : _scen(NT=3,  tasks=('t1', 't2'), unk=('tx',), mb=2, services=('t2',), api=True),
+    # C13: tasks in the middle of their submission when a pilot ends
+    'submit-q': _scen(NT=2, NP=2, tasks=('t1', 't2'), pilots=('p1', 'p2'), mb=1, bindat=1,
+                      early=True, direct=True, latesubmit=True),
     # C13: every assignment x every task state x every order of pilot deaths
     'death-q' : _scen(NT=4, NP=2, tasks=('t1', 't2'), pilots=('p1', 'p2'), mb=1, bindat=2,
                       early=True, direct=True),
@@ -82,16 +88,17 @@ SCENARIOS = {
 # instances with the real state chains, simulated to obtain behaviours
 SIM = {
     'sim-tasks' : _scen(tasks=('t1', 't2', 't3'), unk=('tx',), pilots=('p1', 'p2'), mb=4,
-                        early=True, direct=True, remove=True, race=True),
+                        early=True, direct=True, remove=True, race=True, services=('t3',), api=True),
     'sim-pilots': _scen(tasks=('t1', 't2'), pilots=('p1', 'p2'), punk=('px',),
                         ptypes=('pilot', 'task', 'none'), mb=2, mpb=3, early=True, remove=True),
     'sim-all'   : _scen(tasks=('t1', 't2', 't3'), unk=('tx',), pilots=('p1', 'p2', 'p3'), punk=('px',),
-                        mb=3, mpb=2, early=True, direct=True, remove=True, race=True, lateadd=True),
+                        mb=3, mpb=2, early=True, direct=True, remove=True, race=True, lateadd=True,
+                        services=('t3',), api=True),
 }
 
 PLAN = {   # property -> (exhaustive scenarios quick / thorough only, simulated instances)
-    'C06': (['tasks-q', 'race-q'],  ['tasks-t', 'race-t'],  ['sim-tasks']),
-    'C13': (['death-q', 'chain-q'],  ['death-t', 'chain-t', 'race-t', 'add-t'],  ['sim-all']),
+    'C06': (['tasks-q', 'race-q', 'api-q'],  ['tasks-t', 'race-t'],  ['sim-tasks']),
+    'C13': (['death-q', 'chain-q', 'submit-q'],  ['death-t', 'chain-t', 'race-t', 'add-t'],  ['sim-all']),
     'C14': (['pilots-q'], ['pilots-t'], ['sim-pilots']),
 }
 
@@ -102,12 +109,15 @@ DEVIATIONS = {
             ('DevPilotCbCanceled', 'death-q',  [], ['FinalSticky'],    'FinalSticky'),
             ('DevApplyNoRecheck',    'race-q', [], ['FinalSticky'],    'FinalSticky'),
             ('DevApplyOverCanceled', 'race-q', [], ['FinalSticky'],    'FinalSticky'),
-            ('DevAnnounceUnapplied', 'race-q', ['CbAgrees'], [],       'CbAgrees')],
+            ('DevAnnounceUnapplied', 'race-q', ['CbAgrees'], [],       'CbAgrees'),
+            ('DevWaitExtendsFinal',  'api-q',  ['TablesUntouched'], [], 'TablesUntouched'),
+            ('DevInfoMerge',         'api-q',  ['BatchIsolation'], [],  'BatchIsolation')],
     'C13': [('DevPilotCbAll',      'death-q',  INV_C13, [], 'OthersKeep'),
             ('DevPilotCbCanceled', 'death-q',  INV_C13, [], 'OthersKeep'),
             ('DevRemovedUnwatched', 'chain-q', INV_C13, [], 'OwnFail'),
             ('DevLoopAborts',       'race-q',  INV_C13, [], 'OwnFail'),
-            ('DevAddLastWatched',   'chain-q', INV_C13, [], 'OwnFail')],
+            ('DevAddLastWatched',   'chain-q', INV_C13, [], 'OwnFail'),
+            ('DevSubmitOtherLock',  'submit-q', INV_C13, [], 'OwnFail')],
     # D19 and the raise on DONE -> FAILED lose notifications but leave what C14
     # states intact: the C14 invariants hold, PBatchComplete (no property) fails
     'C14': [('DevPBatchFirst',     'pilots-q', INV_C14, ['PFinalNotLeftAct'], None),
@@ -130,10 +140,12 @@ def cfg_constants(sc, devs=()):
     c = ('CONSTANTS\n NT = %d\n NP = %d\n Tasks = %s\n UnknownTasks = %s\n Pilots = %s\n'
          ' UnknownPilots = %s\n PTypes = %s\n MaxBatch = %d\n MaxPBatch = %d\n BindAt = %d\n'
          ' EarlyBind = %s\n DirectFinal = %s\n AllowRemove = %s\n Race = %s\n LateAdd = %s\n'
+         ' Services = %s\n Api = %s\n LateSubmit = %s\n'
          % (sc['NT'], sc['NP'], _set(sc['tasks']), _set(sc['unk']), _set(sc['pilots']),
             _set(sc['punk']), _set(sc['ptypes']), sc['mb'], sc['mpb'], sc['bindat'],
             _bool(sc['early']), _bool(sc['direct']), _bool(sc['remove']),
-            _bool(sc['race']), _bool(sc['lateadd'])))
+            _bool(sc['race']), _bool(sc['lateadd']),
+            _set(sc['services']), _bool(sc['api']), _bool(sc['latesubmit'])))
     for d in DEVS:
         c += ' %s = %s\n' % (d, _bool(d in devs))
     return c
@@ -158,7 +170,7 @@ Kinds == IF dying # None THEN {"N", "A", "E"}          \* a pilot callback is in
          ELSE IF nphase # "idle" THEN {"T", "F"}         \* _update_tasks is in progress
          ELSE (IF Race THEN {"NB"} ELSE {}) \cup {"N", "B"} \cup (IF DirectFinal THEN {"F"} ELSE {}) \cup (IF MaxPBatch > 0 THEN {"P"} ELSE {})
               \cup (IF AllowRemove THEN {"R"} ELSE {}) \cup (IF Race THEN {"S", "U"} ELSE {})
-              \cup (IF LateAdd THEN {"G"} ELSE {})
+              \cup (IF LateAdd THEN {"G"} ELSE {}) \cup (IF Api THEN {"Q", "I"} ELSE {})
 \* random batches (simulation only): one successor per batch length
 RandT(k) == [i \in 1 .. k |-> RandomElement(TEntries)]
 RandP(k) == [i \in 1 .. k |-> RandomElement(PEntries)]
@@ -182,6 +194,10 @@ SimNext ==
         \/ NApply  /\ last' = <<"napply", plan[1]>>
         \/ NToFire /\ last' = <<"ntofire">>
         \/ NFire   /\ last' = <<"nfire">>
+  \/ /\ pick = "Q" /\ pick' = "none"
+     /\ \E s \in {RandomElement(AllStates(NT))} : ApiCall(s) /\ last' = <<"api", s>>
+  \/ /\ pick = "I" /\ pick' = "none"
+     /\ \E t \in Tasks, k \in {"str", "dict"} : SetInfo(t, k) /\ last' = <<"info", t, k>>
   \/ /\ pick = "S" /\ pick' = "none"
      /\ \E p \in Pilots : DeathSelect(p) /\ last' = <<"select", p>>
   \/ /\ pick = "A" /\ pick' = "none"
@@ -218,6 +234,15 @@ def ops_from_behaviour(path, rng, rich=True):
     for _, _, st in steps[1:]:
         last = st.get('last')
         if not isinstance(last, list) or not last or last[0] == 'skip':
+            continue
+        if last[0] == 'api':
+            r = rng.random()
+            ops.append(['api', 'wait_tasks', {'state': last[1], 'timeout': 0.3}] if r < 0.5 else
+                       ['api', 'wait_tasks', {'timeout': 0.2}] if r < 0.65 else
+                       ['api', 'list_tasks', {}] if r < 0.8 else ['api', 'get_tasks', {}])
+            continue
+        if last[0] == 'info':
+            ops.append(['service_info', last[1], last[2], rng.choice(['control', 'direct'])])
             continue
         if last[0] == 'nbegin':
             nrace = ['notify_race', [[e[0], e[1], random_tdoc(rng, rich)] for e in last[1]], []]
@@ -433,6 +458,107 @@ def enum_race(quick):
                     ['notify', [['t1', TD], ['t2', 6]]]])
 
 
+def enum_api(quick):
+    '''application calls between the notification batches of one history: every
+       awaited state x what the tasks have reached x the call forms; the later
+       batches (single steps, skips, a duplicate, the final batch) are applied as
+       if nobody had asked'''
+    tasks = ['t1', 't2', 't3']
+    calls = lambda s: [['api', 'wait_tasks', {'uids': list(tasks), 'state': s, 'timeout': 0}],
+                       ['api', 'wait_tasks', {'uids': 't1', 'state': s, 'timeout': 0.3}],
+                       ['api', 'wait_tasks', {'state': [s, TD], 'timeout': 0.2}],
+                       ['api', 'wait_tasks', {'state': min(s + 2, NT - 1), 'timeout': 0.3}]]
+    rest  = lambda s: [['notify', [['t1', min(s + 1, NT - 1)], ['t2', min(s + 2, NT - 1)],
+                                   ['t3', NT - 2]]],
+                       ['notify', [['t2', min(s + 2, NT - 1)]]],
+                       ['api', 'list_tasks', {}], ['api', 'get_tasks', {'uids': ['t1', 't3']}],
+                       ['notify', [[u, NT - 1] for u in tasks]],
+                       ['api', 'wait_tasks', {'timeout': 0.2}], ['api', 'get_tasks', {}],
+                       ['notify', [['t1', TD], ['t2', TF], ['t3', TD]]],
+                       ['api', 'wait_tasks', {}]]
+    for s in (range(1, NT, 3) if quick else range(1, NT)):
+        for k, call in enumerate(calls(s)):
+            yield (tasks, ['p1'], {}, [['notify', [[u, 1] for u in tasks]],
+                                       ['notify', [[u, s] for u in tasks]], call] + rest(s))
+    for call in (['api', 'wait_tasks', {'timeout': 0.2}], ['api', 'list_tasks', {}],
+                 ['api', 'get_tasks', {}], ['api', 'get_tasks', {'uids': 'tx'}],
+                 ['api', 'wait_tasks', {'uids': ['tx'], 'timeout': 0.2}]):
+        yield (tasks, ['p1'], {}, [['notify', [[u, 4] for u in tasks]], call] + rest(4))
+
+
+def enum_service(quick):
+    '''service tasks that reported their startup info (a string, a dict, through
+       the service_up handler or Task._set_info, once or twice) before their
+       final notification arrives in a batch with other tasks, at every position
+       of that batch'''
+    tasks = ['t1', 's1', 't2']
+    modes = {'s1': 'service'}
+    n = 0
+    for infos in ([], [('str', 'control')], [('dict', 'control')], [('dict', 'direct')],
+                  [('str', 'control'), ('dict', 'control')], [('dict', 'control'), ('dict', 'direct')],
+                  [('dict', 'control'), ('str', 'direct')], [('none', 'control')]):
+        for fin in (TC, TD, TF):
+            for pos in (0, 1, 2):
+                n += 1
+                if quick and n % 2 and len(infos) != 1:
+                    continue
+                batch = [['t1', TD], ['t2', TD]]
+                batch.insert(pos, ['s1', fin])
+                ops  = [['notify', [[u, 10] for u in tasks]]]
+                ops += [['service_info', 's1', what, via] for what, via in infos]
+                ops += [['notify', [['t1', NT - 1], ['t2', NT - 1]]], ['notify', batch],
+                        ['notify', batch]]
+                yield (tasks, ['p1'], {'s1': 'p1'}, ops, modes, None)
+
+
+def enum_submit(quick):
+    '''the pilot ends while tasks are submitted to it: after the k-th Task object
+       was created and before any is registered; both submission paths, every
+       k, both call forms of the callback; other tasks around'''
+    tasks = ['t1', 't2', 't3', 'a', 'b', 'c']
+    init  = {'t1': 'p1', 't2': 'p2', 'a': 'p1', 'b': 'p1', 'c': 'p1'}
+    n = 0
+    for via in ('pilot', 'tmgr'):
+        for k in (1, 2, 3):
+            for fin, how in ((PF, 'list'), (PC, 'single'), (PD, 'list')):
+                n += 1
+                if quick and n % 2 and k == 3:
+                    continue
+                yield (tasks, ['p1', 'p2'], init,
+                       [['notify', [['t1', 10], ['t2', 10], ['t3', 2]]],
+                        ['submit', via, 'p1', ['a', 'b', 'c'], k, ['pilot_final', 'p1', fin, how, False]],
+                        ['notify', [['t2', TD], ['a', 5]]],
+                        ['pnotify', [['pilot', 'p2', PC]]]],
+                       {}, None, ['a', 'b', 'c'])
+    # the other pilot ends during the submission; a submission with nobody interfering
+    yield (tasks, ['p1', 'p2'], init,
+           [['notify', [['t1', 10], ['t2', 10]]],
+            ['submit', 'pilot', 'p1', ['a', 'b', 'c'], 2, ['pilot_final', 'p2', PF, 'list', False]],
+            ['pnotify', [['pilot', 'p1', PF]]]], {}, None, ['a', 'b', 'c'])
+    yield (tasks, ['p1', 'p2'], init,
+           [['submit', 'tmgr', 'p1', ['a', 'b', 'c'], 0, None], ['notify', [['a', 5], ['b', TD]]],
+            ['pilot_final', 'p1', PC, 'single', True]], {}, None, ['a', 'b', 'c'])
+
+
+def enum_appcb(quick):
+    '''an application callback that cancels the pilot of a FAILED task (and so
+       calls into the pilot manager from the state subscriber thread) while the
+       pilot manager's thread delivers that pilot's final state: the acquisition
+       order of the locks has no cycle, nobody waits forever, and the pilot's
+       other tasks are FAILED'''
+    tasks = ['t1', 't2', 't3', 't4']
+    init  = {'t1': 'p1', 't2': 'p1', 't3': 'p2'}
+    for batch in ([['t1', TF]], [['t3', 12], ['t1', TF], ['t4', 3]], [['t1', TF], ['t2', TF]],
+                  [['t1', TF], ['t3', TF]], [['t2', TD], ['t1', TF]]):
+        yield (tasks, ['p1', 'p2'], init,
+               [['notify', [['t1', 10], ['t2', 10], ['t3', 10], ['t4', 2]]],
+                ['app_cb', 'cancel_pilot'], ['notify', batch],
+                ['notify', [['t3', NT - 1]]], ['pilot_cancel', 'p2']])
+    yield (tasks, ['p1', 'p2'], init,
+           [['notify', [['t1', 10], ['t2', 10], ['t3', 10]]], ['pilot_cancel', 'p1'],
+            ['app_cb', 'cancel_pilot'], ['notify', [['t3', TF]]]])
+
+
 def enum_revrace(quick):
     '''the same two writers the other way round: _update_tasks is under way (the
        passed states are computed / some are applied / callbacks are being
@@ -590,6 +716,10 @@ def enum_c06(quick):
         yield case
     for case in enum_revrace(quick):
         yield case
+    for case in enum_api(quick):
+        yield case
+    for case in enum_service(quick):
+        yield case
 
 
 def enum_c13(quick):
@@ -647,6 +777,10 @@ def enum_c13(quick):
     for case in enum_race(True):
         yield case
     for case in enum_revrace(True):
+        yield case
+    for case in enum_submit(quick):
+        yield case
+    for case in enum_appcb(quick):
         yield case
 
 
@@ -722,6 +856,14 @@ def random_case(rng, rich=True):
                 u = rng.choice(tasks + ['tx'])
                 b.append([u, _pick_state(rng, tst.get(u, 0), NT), random_tdoc(rng, rich)])
             op = ['notify', b]
+        elif r < 0.48:
+            q  = rng.random()
+            op = ['api', 'wait_tasks', {'state': rng.randrange(1, NT), 'timeout': 0.3}] if q < 0.4 else \
+                 ['api', 'wait_tasks', {'uids': rng.choice(tasks), 'timeout': 0.2}] if q < 0.55 else \
+                 ['api', 'list_tasks', {}] if q < 0.7 else \
+                 ['api', 'get_tasks', {'uids': [rng.choice(tasks)]}] if q < 0.85 else \
+                 ['service_info', rng.choice(tasks), rng.choice(['str', 'dict']),
+                  rng.choice(['control', 'direct'])]
         elif r < 0.50:
             u  = rng.choice(tasks)
             op = ['task_update', u, rng.choice([TD, TF, TC]) if tst[u] >= NT else TF,
@@ -779,7 +921,7 @@ def random_case(rng, rich=True):
             op = ['pnotify', b]
         ops.append(op)
         rig.apply(op)
-    rig._set_fault(None)
+    rig.close()
     return (tasks, pilots, init, ops, modes, add)
 
 
@@ -861,6 +1003,14 @@ INTERRUPTED = 'pilot callback running while _update_tasks is under way'
 
 
 def classify(trace, clause):
+    if clause == 'C06.TablesUntouched':
+        return 'application call between notifications'
+    if clause == 'C13.LockOrder':
+        return 'application callback calling into the pilot manager'
+    if clause.startswith('C13.') and any(e['ev'] == 'SubmitBegin' for e in trace['events']):
+        return 'task in the middle of its submission when its pilot ends'
+    if clause.startswith('C06.') and any(not e['tables'] for e in trace['events']):
+        return 'application call between notifications'
     if clause.startswith('C13.OwnFail') and _faulty(trace):
         return _faulty(trace)
     if clause.startswith('C06.') and not _final_written(trace) and \
@@ -911,6 +1061,9 @@ def _nontrivial_keys(trace):
         elif e['ev'] == 'PilotFinal':
             keys.add(('F', tuple(sorted(tst.items())), e['pilot'],
                       tuple(sorted((u, e['tpost'][u]['pilot']) for u in tst))))
+        elif e['ev'] in ('ApiCall', 'ServiceInfo', 'SubmitBegin', 'PilotCancel'):
+            keys.add((e['ev'], tuple(sorted(tst.items())), str(e.get('name', e.get('uids', e.get('pilot')))),
+                      e.get('info', ''), e['ret']))
         elif e['ev'] in ('AddPilots', 'TaskUpdate', 'DeathBegin', 'DeathApply', 'NotifyPartial',
                          'NotifyBegin'):
             keys.add((e['ev'], tuple(sorted(tst.items())), str(e.get('pilots', e.get('uid', e.get('pilot')))),
@@ -926,9 +1079,14 @@ def _check_traces(chk, cases, label):
        all of them), report; label: one string, or one per case'''
     pid    = chk.pid
     labels = [label] * len(cases) if isinstance(label, str) else label
-    cases  = [tuple(c) + (None, None)[:6 - len(c)] for c in cases]
-    traces = [R.run_ops(t, p, i, ops, iso=(pid == 'C06'), modes=m, add=a)
-              for t, p, i, ops, m, a in cases]
+    cases  = [tuple(c) + (None, None, None)[:7 - len(c)] for c in cases]
+    try:
+        traces = [R.run_ops(t, p, i, ops, iso=(pid == 'C06'), modes=m, add=a, late=la)
+                  for t, p, i, ops, m, a, la in cases]
+    except RuntimeError as e:
+        if 'module tables' in str(e):
+            raise Machinery(str(e))
+        raise
     if not traces:
         return {}
     res, st = tracecheck.validate('ClientState', 'ClientStateTrace', R.constants_text(),
@@ -960,7 +1118,8 @@ def _check_traces(chk, cases, label):
                           'real client-side notification path violates %s (%s)' % (err, label),
                           {'rig': 'clientstate', 'tasks': case[0], 'pilots': case[1],
                            'init_bound': case[2], 'ops': case[3], 'modes': case[4] or {},
-                           'add': 'default' if case[5] is None else case[5], 'errs': errs})
+                           'add': 'default' if case[5] is None else case[5],
+                           'late': case[6] or [], 'errs': errs})
     return notes
 
 
@@ -982,6 +1141,21 @@ def run(chk, tier, seed):
             raise Machinery('design model ClientState violates %s in scenario %s '
                             '(intended design must hold):\n%s'
                             % (res.violated, name, res.trace[:3000]))
+    if pid == 'C13':
+        # lock order between the two subscriber threads (spec/ClientState/ClientLocks.tla)
+        for dev in ([False] if quick else [False, True]):
+            cfg = ('CONSTANTS\n DevCbInsideLock = %s\nSPECIFICATION Spec\n'
+                   'INVARIANT LockOrder\nINVARIANT OwnFail\n' % _bool(dev))
+            res = tlc.run('ClientState', 'ClientLocks', 'Locks.cfg', workers=1, timeout=300,
+                          extra_files={'Locks.cfg': cfg})
+            chk.add_tlc(res, 'locks:%s' % ('DevCbInsideLock' if dev else 'design'))
+            if dev and res.ok:
+                raise Machinery('deviation DevCbInsideLock not detected in ClientLocks')
+            if dev:
+                chk.notes.append('deviation DevCbInsideLock gives %s in ClientLocks' % res.violated)
+            if not dev and not res.ok:
+                raise Machinery('ClientLocks violates %s (intended design must hold):\n%s'
+                                % (res.violated, res.trace[:2000]))
     chk.exhaustive = True
 
     # ---- 2. deviation sensitivity ------------------------------------------------
@@ -1022,7 +1196,8 @@ def run(chk, tier, seed):
                 if ops:
                     cases.append((list(sc['tasks']), list(sc['pilots']),
                                   {t: b for t, b in (bound or {}).items() if b != 'none'}, ops,
-                                  {}, [] if sc['lateadd'] else None))
+                                  {t: 'service' for t in sc['services']},
+                                  [] if sc['lateadd'] else None))
         finally:
             shutil.rmtree(dump, ignore_errors=True)
     if not cases:
@@ -1063,5 +1238,5 @@ def run(chk, tier, seed):
 def replay(chk, obj):
     add  = obj.get('add', 'default')
     case = (obj['tasks'], obj['pilots'], obj.get('init_bound', {}), obj['ops'],
-            obj.get('modes') or {}, None if add == 'default' else add)
+            obj.get('modes') or {}, None if add == 'default' else add, obj.get('late') or None)
     _check_traces(chk, [case], 'replay')
